@@ -45,7 +45,8 @@ def generate(seed, tier):
     tps = []
     for i in range(r.choice((1, 1, 2))):
         tp = {"id": "tp%d" % i, "line": r.choice(("mark", "after")), "via": "service", "args": {},
-              "watches": r.sample(("depth", "ctx", "nosuch", "1/0", "'lone \\ud800'", "[depth, ctx]", "out", "ClockBack()"),
+              "watches": r.sample(("depth", "ctx", "nosuch", "1/0", "'lone \\ud800'", "[depth, ctx]", "out", "ClockBack()",
+                                   "next(iter(()))"),
                                   r.choice((0, 1, 2, 3)))}
         if r.random() < 0.4:
             tp["args"]["log_msg"] = r.choice(("plain", "d={depth}", "bad {nosuch} {depth}", "{{x}}"))
@@ -180,6 +181,8 @@ def compare(es, snap):
         else:
             diff("watches[%d].has_good" % i, False, g.HasField("good_result"))
         diff("watches[%d].error_result" % i, esc(w_.error or ""), g.error_result)
+        # which of the two it is has to arrive as well: an error without a text (StopIteration()) is still an error
+        diff("watches[%d].kind" % i, "error_result" if w_.result is None else "good_result", g.WhichOneof("result"))
     diff("attributes", {k_: _any(v_) for k_, v_ in es.attributes.items()}, {kv.key: _got_any(kv.value) for kv in snap.attributes})
     diff("resource", {k_: _any(v_) for k_, v_ in es.resource.attributes.items()}, {kv.key: _got_any(kv.value) for kv in snap.resource})
     return out
